@@ -297,7 +297,7 @@ M_DE = {
     "pa2": M("pa2_reset", OB.ob_pa2_reset, OB.ob_pa2_reset.__doc__, DE_FN, DE_B, replay=["d3_pending_action_error_path"]),
     "pav": M("pa_value", OB.ob_pa_value, OB.ob_pa_value.__doc__, DE_FN, DE_B, replay=["d3_pending_action_error_path", "c08_reentrancy_scenarios"]),
     "disp1": M("disp1_receiver", OB.ob_disp1_receiver, OB.ob_disp1_receiver.__doc__, DE_FN, DE_B, replay=["c01_routing_scenarios", "c14_lifecycle_scenarios", "c16_removed_in_callback"]),
-    "fsub": M("tokens_forget_sub", OB.ob_tokens_forget_sub, OB.ob_tokens_forget_sub.__doc__, DE_FN, DE_B, replay=["c14_lifecycle_scenarios"]),
+    "fsub": M("tokens_forget_sub", OB.ob_tokens_forget_sub, OB.ob_tokens_forget_sub.__doc__, DE_FN, DE_B, replay=["c14_lifecycle_scenarios", "d15_remove_with_failing_unregister_lifecycle"]),
     "rm3": M("rm3_removed_check", OB.ob_rm3_removed_check, OB.ob_rm3_removed_check.__doc__, DE_FN, DE_B, replay=["c16_removed_in_callback", "c14_lifecycle_scenarios", "d13_self_remove_then_error", "d15_remove_with_failing_unregister_lifecycle"]),
     "re1": M("re1_no_guards", OB.ob_re1_no_guards, OB.ob_re1_no_guards.__doc__, DE_FN, DE_B, replay=["c08_reentrancy_scenarios"]),
     "lc2": M("lc2_order", OB.ob_lc2_order, OB.ob_lc2_order.__doc__, DE_FN, DE_B + "; the before_sleep loop unrolled once more", replay=["c14_lifecycle_scenarios", "c01_routing_scenarios", "c13_idle_scenarios"]),
@@ -310,8 +310,8 @@ H_FN = ["LoopHandle::remove", "LoopHandle::disable", "LoopHandle::update", "Loop
 M_H = {
     "remove": M("handle_remove", OB.ob_handle_remove, OB.ob_handle_remove.__doc__, H_FN[:1], "all paths (loop-free)", replay=["c06_removal_scenarios", "c01_routing_scenarios", "c16_removed_in_callback", "c08_reentrancy_scenarios", "d15_remove_with_failing_unregister_lifecycle", "d16_remove_source_whose_drop_reenters_the_loop"]),
     "disable": M("handle_disable", OB.ob_handle_disable, OB.ob_handle_disable.__doc__, H_FN[1:2], "all paths (loop-free)", replay=["c01_routing_scenarios", "d3_pending_action_error_path", "c08_reentrancy_scenarios"]),
-    "update": M("handle_update", OB.ob_handle_update, OB.ob_handle_update.__doc__, H_FN[2:3], "all paths (loop-free)", replay=["c01_routing_scenarios", "d3_pending_action_error_path", "c05_timer_scenarios"]),
-    "enable": M("handle_enable", OB.ob_handle_enable, OB.ob_handle_enable.__doc__, H_FN[3:4], "all paths (loop-free)", replay=["c01_routing_scenarios", "c05_timer_scenarios", "c15_failed_registration"]),
+    "update": M("handle_update", OB.ob_handle_update, OB.ob_handle_update.__doc__, H_FN[2:3], "all paths (loop-free)", replay=["c01_routing_scenarios", "d3_pending_action_error_path", "c05_timer_scenarios", "c08_reentrancy_scenarios"]),
+    "enable": M("handle_enable", OB.ob_handle_enable, OB.ob_handle_enable.__doc__, H_FN[3:4], "all paths (loop-free)", replay=["c01_routing_scenarios", "c05_timer_scenarios", "c15_failed_registration", "c08_reentrancy_scenarios"]),
     "re2": M("re2_no_double_borrow", OB.ob_re2_no_double_borrow, OB.ob_re2_no_double_borrow.__doc__, H_FN, "all paths", replay=["c08_reentrancy_scenarios"]),
     "reg1": M("register_dispatcher", OB.ob_register_dispatcher, OB.ob_register_dispatcher.__doc__, H_FN[4:5], "all paths", replay=["c15_failed_registration", "d1_failed_lifecycle_register"]),
     "idles": M("idles", OB.ob_idles, OB.ob_idles.__doc__, ["EventLoop::dispatch", "EventLoop::dispatch_idles"], "idle loop unrolled twice", replay=["c13_idle_scenarios"]),
@@ -320,7 +320,7 @@ M_H = {
 }
 
 M_L = {
-    "run": M("run", OB.ob_run, OB.ob_run.__doc__, ["EventLoop::run"], "2 loop iterations", replay=["p_sig_stress"]),
+    "run": M("run", OB.ob_run, OB.ob_run.__doc__, ["EventLoop::run"], "2 loop iterations", replay=["p_sig_stress", "c13_idle_scenarios"]),
     "block_on": M("block_on", OB.ob_block_on, OB.ob_block_on.__doc__, ["EventLoop::block_on"], "2 loop iterations", replay=["p_sig_stress"]),
     "signal": M("signal", OB.ob_signal, OB.ob_signal.__doc__, ["LoopSignal::stop", "LoopSignal::wakeup", "Notifier::notify",
                 "EventLoopWaker::wake", "EventLoopWaker::wake_by_ref"], "all paths (loop-free)", replay=["p_sig_stress"]),
@@ -402,7 +402,7 @@ P("C04", "model_checking", [], [M_CH["send"], M_CH["process"], M_PING["ping"], P
 addm("C05", [M_TM["wheel"], M_TM["timer"], M_TM["stale"], M_POLL])
 addm("C06", [M_H["remove"], M_H["disable"], M_H["update"], M_H["enable"], M_DE["rm3"], M_DE["disp1"], M_TOK, M_SLOTS])
 addm("C07", [M_H["disable"], M_H["enable"], M_DE["pa2"], M_DE["fsub"], M_DE["rm3"], M_TM["timer"], M_DELEG, M_CH["process"], M_PING["ping"]])
-addm("C08", [M_DE["re1"], M_H["re2"], M_EX["process"], M_DE["pa2"], M_H["idles"], M_DE["rm3"], M_H["remove"], M_DE["pav"]])
+addm("C08", [M_DE["re1"], M_H["re2"], M_EX["process"], M_DE["pa2"], M_H["idles"], M_DE["rm3"], M_H["remove"], M_DE["pav"], M_H["update"], M_H["disable"], M_H["enable"]])
 addm("C09", [M_DE["pa2"], M_DE["pav"], M_H["disable"], M_H["update"], M_DE["fsub"]])
 P("C10", "model_checking", [], [M_EX["process"], M_EX["send"], M_EX["drop"], M_EX["stream"], P_Q["exec"]],
   bounds="engine M: dequeue/poll loops unrolled twice; engine P: see obligation bounds",
@@ -412,10 +412,10 @@ P("C11", "model_checking", [], [M_L["run"], M_L["block_on"], M_L["signal"], M_PO
   bounds="engine M: 2 loop iterations; engine P: 3 iterations, 2 remote operations",
   outside="the stickiness of Poller::notify itself (polling's documented contract, modelled); a stop() racing run's initial reset "
           "(excluded by the property text)")
-addm("C12", [M_DE["lc2"], M_TM["wheel"], M_TM["timer"], M_POLL])
-addm("C13", [M_H["idles"], M_H["insidle"]])
+addm("C12", [M_DE["lc2"], M_TM["wheel"], M_TM["timer"], M_POLL, M_CH["process"]])
+addm("C13", [M_H["idles"], M_H["insidle"], M_L["run"]])
 addm("C14", [M_DE["lc2"], M_DE["fsub"], M_DE["rm3"]])
-addm("C15", [M_H["reg1"], M_H["enable"], M_H["update"], M_H["disable"], M_IO["new"], M_DE["err1"], M_DE["err2"], M_DE["pa2"], M_SLOTS])
+addm("C15", [M_H["reg1"], M_H["enable"], M_H["update"], M_H["disable"], M_IO["new"], M_DE["err1"], M_DE["err2"], M_DE["pa2"], M_SLOTS, M_DE["fsub"]])
 addm("C16", [M_IO["drop"], M_IO["new"], M_DE["rm3"], M_DELEG])
 addm("C17", [M_IO["io"], M_IO["new"], M_IO["drop"]])
 for _p in ("C03",):
